@@ -89,7 +89,7 @@ FUNS   == {"+", "-", "*", "/", "=", "<", ">", "<=", ">=", "not", "list", "cons",
            "map", "foldl", "foldr", "select", "reject", "any?", "all?", "nth", "second", "append", "concat", "reverse", "empty?",
            "mod", "max", "min", "list?", "int?", "symbol?", "true?", "float?", "number?",
            "vector", "vector?", "array?", "aref", "string?", "sorted-map", "sorted-map?", "get", "key?", "keys", "assoc", "dissoc",
-           "to-string", "string="}
+           "to-string", "string=", "slice", "make-sequence", "zip", "insert-index"}
 BuiltinKind(name) == IF name \in OPS THEN "op" ELSE IF name \in MACROS THEN "macro" ELSE "fun"
 BuiltinFID(v) == IF v.p = "op" THEN "<special-op ``" \o v.s \o "''>"
                  ELSE IF v.p = "macro" THEN "<builtin-macro ``" \o v.s \o "''>"
@@ -104,6 +104,9 @@ Arity(name) ==
     [] name \in {"vector", "sorted-map"} -> <<0, -1>>
     [] name \in {"get", "key?", "dissoc", "string="} -> <<2, 2>>
     [] name = "to-string" -> <<1, 1>>
+    [] name \in {"slice", "insert-index"} -> <<4, 4>>
+    [] name = "make-sequence" -> <<2, 3>>
+    [] name = "zip" -> <<2, -1>>
     [] name = "assoc" -> <<3, 3>>
     [] name = "aref" -> <<1, -1>>
     [] name \in {"nth", "mod", "any?", "all?", "reverse"} -> <<2, 2>>
@@ -461,6 +464,8 @@ RECURSIVE MapFromArgs(_, _, _)
 MapFromArgs(a, j, mp) == IF j > Len(a) THEN mp ELSE MapFromArgs(a, j + 2, MapPut(mp, a[j], a[j + 1]))
 KnownKeys(a) == \A j \in 1..Len(a) : (j % 2 = 1) => (IsKey(a[j]) /\ KeyRank(a[j].s) < 100)
 
+RECURSIVE MinLen(_)
+MinLen(a) == IF Len(a) = 1 THEN Len(a[1].c) ELSE LET r == MinLen(Rest(a)) IN IF Len(a[1].c) < r THEN Len(a[1].c) ELSE r
 RECURSIVE JoinStr(_)
 JoinStr(a) == IF Len(a) = 0 THEN "" ELSE (IF a[1].t = "str" THEN a[1].s ELSE "") \o JoinStr(Rest(a))
 \* a sequence type specifier ('list or 'vector) and the sequence it makes of cells (concat gives () for no cells)
@@ -488,7 +493,9 @@ PureBuiltin(name, a) ==
                      ELSE IF n = 1 THEN good(Div2(VInt(1), a[1]))
                      ELSE good(DivFold(a[1], Rest(a)))
     [] name \in {"=", "<", ">", "<=", ">="} ->
-                     IF IntArgs(a) THEN good(VBool(Cmp(name, a[1].n, a[2].n))) ELSE bad
+                     IF IntArgs(a) THEN good(VBool(Cmp(name, a[1].n, a[2].n)))
+                     ELSE IF NumArgs(a) /\ ~AnyUntracked(a) THEN good(VBool(Cmp(name, Scaled(a[1]), Scaled(a[2]))))     \* tracked floats compare by value
+                     ELSE bad
     [] name = "not" -> good(VBool(~Truthy(a[1])))
     [] name = "nil?" -> good(VBool(IsNilV(a[1])))
     [] name = "identity" -> good(a[1])
@@ -531,6 +538,18 @@ PureBuiltin(name, a) ==
     [] name = "mod" -> IF IntArgs(a) /\ a[2].n # 0 THEN good(VInt(GoMod(a[1].n, a[2].n))) ELSE bad
     [] name = "max" -> IF IntArgs(a) THEN good(VInt(SeqMax(a))) ELSE bad
     [] name = "min" -> IF IntArgs(a) THEN good(VInt(0 - SeqMax([j \in 1..n |-> VInt(0 - a[j].n)]))) ELSE bad
+    [] name = "slice" -> IF ~SeqSpec(a[1]) \/ ~IsSeq(a[2]) \/ a[3].t # "int" \/ a[4].t # "int" THEN bad
+                         ELSE IF a[3].n < 0 \/ a[4].n < 0 \/ a[3].n > Len(a[2].c) \/ a[4].n > Len(a[2].c) \/ a[4].n < a[3].n THEN bad
+                         ELSE good(MakeSeq(a[1], SubSeq(a[2].c, a[3].n + 1, a[4].n), FALSE))
+    [] name = "make-sequence" -> IF ~IntArgs(a) \/ (n = 3 /\ a[3].n <= 0) THEN bad
+                                 ELSE LET st == IF n = 3 THEN a[3].n ELSE 1
+                                          cnt == IF a[2].n <= a[1].n THEN 0 ELSE ((a[2].n - a[1].n) + st - 1) \div st IN
+                                      good(VQList([j \in 1..cnt |-> VInt(a[1].n + (j - 1) * st)]))
+    [] name = "zip" -> IF ~SeqSpec(a[1]) \/ (\E j \in 2..n : ~IsSeq(a[j])) THEN bad
+                       ELSE LET mlen == MinLen(Rest(a)) IN
+                            good(MakeSeq(a[1], [i \in 1..mlen |-> MakeSeq(a[1], [j \in 1..(n - 1) |-> a[j + 1].c[i]], FALSE)], FALSE))
+    [] name = "insert-index" -> IF ~SeqSpec(a[1]) \/ ~IsSeq(a[2]) \/ a[3].t # "int" \/ a[3].n < 0 \/ a[3].n > Len(a[2].c) THEN bad
+                                ELSE good(MakeSeq(a[1], SubSeq(a[2].c, 1, a[3].n) \o <<a[4]>> \o SubSeq(a[2].c, a[3].n + 1, Len(a[2].c)), FALSE))
     [] name = "reverse" -> IF ~SeqSpec(a[1]) \/ ~IsSeq(a[2]) THEN bad
                            ELSE good(MakeSeq(a[1], [j \in 1..Len(a[2].c) |-> a[2].c[Len(a[2].c) + 1 - j]], FALSE))
     [] name = "concat" -> IF a[1].t = "sym" /\ a[1].p = "" /\ a[1].s = "string" /\ (\A j \in 2..n : a[j].t = "str" \/ IsNilV(a[j])) THEN good(VStr(JoinStr(Rest(a))))       \* (() is the empty byte sequence)
